@@ -101,6 +101,23 @@ func secondInterface(rng *verifsim.RNG, p *Plan) {
 	p.Class += "+2if"
 }
 
+// monitorStanzaAnywhere moves the monitoring-only stanza (generators append it
+// last) to a random position of the configured list half of the time: per-
+// interface results must not depend on where in the list an interface that
+// advertises nothing stands. The simulated interfaces keep their order.
+func monitorStanzaAnywhere(rng *verifsim.RNG, p *Plan) {
+	is := p.Nodes[0].Config.Interfaces
+	n := len(is)
+	if n < 2 || !is[n-1].Monitor || is[n-1].Advertise || !rng.Bool(0.5) {
+		return
+	}
+	m := is[n-1]
+	at := rng.Intn(n - 1)
+	copy(is[at+1:], is[at:n-1])
+	is[at] = m
+	p.Class += "+monitor-listed-first"
+}
+
 func dur(ns int64) string { return time.Duration(ns).String() }
 
 // jitter returns an odd sub-microsecond offset so that driver actions do not
